@@ -6,3 +6,11 @@ for s in "$@"; do for p in C01 C02 C03 C04 C05 C06 C07 C08 C09 C10 C11 C12 C13 C
   echo "seed=$s $p rc=$rc $(echo "$out" | grep -c '^VIOLATION') viol | $(echo "$out" | tail -1)"
   [ $rc != 0 ] && echo "$out" | grep -v KNOWN | head -20
 done; done
+# optional build configurations must not be skipped on the unchanged tree
+python3 - <<'PY'
+import json, glob
+for f in sorted(glob.glob('/verif/evidence/C*.json')):
+    n = json.load(open(f)).get('coverage', {}).get('notes') or []
+    if any('skipped' in x for x in n):
+        print('SKIPPED-CONFIGURATION', f[-8:-5], [x[:160] for x in n if 'skipped' in x])
+PY
